@@ -128,7 +128,7 @@ def run_check(pid, tier, seed, procs, t0):
         lemma_obs = prove_lemmas(lemmas, timeout_ms, cross)
     # ---- CPython cross-check of every exact-mode FUC (concrete contract evaluation on the real code)
     nsamp = 200 if tier == "quick" else 5000
-    exact = [c for c in cts if not c.abstract and getattr(c, "cross_check", True)]
+    exact = [c for c in cts if c.is_replayable()]
     xres = {}
     with cf.ThreadPoolExecutor(max_workers=procs) as ex:
         futs = {ex.submit(run_replay, c.target, "sample", None, nsamp, seed, 300 if tier == "quick" else 1500): c.target for c in exact}
@@ -203,7 +203,7 @@ def run_check(pid, tier, seed, procs, t0):
         for f in fucs:
             if f["target"] == o.get("target"):
                 rep["fuc"].update(f.get("source") or {})
-        if ct is not None and not ct.abstract and getattr(ct, "cross_check", True):
+        if ct is not None and ct.is_replayable():
             r1 = run_replay(ct.target, "model", o.get("model"), seed=seed)
             hit = r1.get("violations")
             if not hit:
